@@ -9,6 +9,7 @@ Every comparator returns -1 / 0 / +1, or None when the documentation does not de
 (the checker then accepts either order: "oracles decline rather than guess").
 An *element* is a str (the text of a field value / array element) or a bool (DSL only).
 """
+import functools
 import re
 
 _INT_PREFIXED = re.compile(r"^([+-]?)(0x[0-9a-fA-F]+|0b[01]+|0o[0-7]+)$")
@@ -18,6 +19,7 @@ _FLOAT = re.compile(r"^[+-]?((0|[1-9][0-9]*)\.[0-9]*|\.[0-9]+|(0|[1-9][0-9]*))([
 TWO53 = 1 << 53
 
 
+@functools.lru_cache(maxsize=1 << 16)
 def parse_num(t):
     """Number grammar restricted to the spellings reference-main-arithmetic.md names explicitly:
     decimal ints without leading zeros, 0x/0b/0o ints (optionally signed), decimal floats with a
@@ -70,6 +72,26 @@ def exactly_double(v):
     return abs(v) <= TWO53 or float(v) == v and int(float(v)) == v
 
 
+def interfering_floats(texts):
+    """Float spellings in `texts` that equal the double image shared by two or more DIFFERENT ints of `texts`
+    (e.g. 9007199254740992.0 next to 9007199254740992 and 9007199254740993). How an int beyond 2^53 compares with a
+    float is not documented (cmp_num declines on such pairs); if it goes through doubles, both ints tie with the float
+    while they differ from each other, i.e. the collation is not transitive on that triple - outside 'values exactly
+    representable as doubles' - and no order can be required of a list that contains it."""
+    imgs, floats = {}, {}
+    for t in texts:
+        v = parse_num(t) if isinstance(t, str) else None
+        if isinstance(v, float):
+            floats.setdefault(v, set()).add(t)
+        elif isinstance(v, int) and abs(v) >= TWO53:
+            imgs.setdefault(float(v), set()).add(v)
+    out = set()
+    for f, ints in imgs.items():
+        if len(ints) > 1 and f in floats:
+            out |= floats[f]
+    return out
+
+
 def _sgn(x):
     return (x > 0) - (x < 0)
 
@@ -118,10 +140,8 @@ def cmp_nat(a, b):
     for x, y in zip(ca, cb):
         dx, dy = x[0] in "0123456789", y[0] in "0123456789"
         if dx and dy:
-            if len(x) > 18 or len(y) > 18:
-                return None
             if int(x) != int(y):
-                return _sgn(int(x) - int(y))
+                return _sgn(int(x) - int(y))     # "digit runs compare numerically", whatever their length
             continue     # 02 vs 2: numerically equal chunks
         if x != y:
             return _bcmp(x, y)
@@ -131,6 +151,13 @@ def cmp_nat(a, b):
     # and (unlike 1 vs 1.0 under -nf) it is not documented as "equal" either, so in a multi-key chain
     # it is unknown whether the next key is consulted: undecided.
     return None
+
+
+def nat_overflow(t):
+    """Does the text hold a digit run whose value exceeds int64? (Listed defect C09-F8: such runs are compared as text,
+    which makes the natural collation intransitive; the pair probes report it, list-level checks decline.)"""
+    t = text_of(t)
+    return any(c[0] in "0123456789" and int(c) >= (1 << 63) for c in _CHUNKS.findall(t))
 
 
 def nat_tied(a, b):
@@ -144,7 +171,7 @@ def nat_tied(a, b):
     for x, y in zip(ca, cb):
         dx, dy = x[0] in "0123456789", y[0] in "0123456789"
         if dx and dy:
-            if len(x) > 18 or len(y) > 18 or int(x) != int(y):
+            if int(x) != int(y):
                 return False
         elif x != y:
             return False
@@ -174,7 +201,12 @@ def cmp_num(a, b):
     if ra == 0:
         va, vb = parse_num(a), parse_num(b)
         exact = (va > vb) - (va < vb)
+        if isinstance(va, int) and isinstance(vb, int):
+            # reference-main-arithmetic.md / reference-main-int... : ints are 64-bit integers and stay ints; two ints
+            # are ordered by their integer value however large (no conversion is documented for int-vs-int)
+            return exact
         if not (exactly_double(va) and exactly_double(vb)):
+            # an int beyond 2^53 against a float: the documentation does not say whether the int is converted
             fl = (float(va) > float(vb)) - (float(va) < float(vb))
             if fl != exact:
                 return None      # outside "values exactly representable as doubles"
@@ -219,30 +251,42 @@ def cmp_chain(cmps, A, B):
 def check_sequence(cmps, keys):
     """keys: list of key tuples in output order. Returns None if no decided inversion exists, else
     (i, j) positions with cmp_chain(keys[i], keys[j]) > 0, i < j. Distinct tuples are compared
-    all-pairs through their first/last positions (needed because undecided pairs break the
-    'adjacent pairs suffice' argument); long lists fall back to adjacent pairs."""
+    all-pairs through their first/last positions (needed because undecided and tied pairs break the
+    'adjacent pairs suffice' argument). Per-column comparisons are memoised (a column holds few
+    distinct texts), so the all-pairs pass stays cheap for lists of a thousand distinct tuples."""
     first, last = {}, {}
     for p, k in enumerate(keys):
         if k not in first:
             first[k] = p
         last[k] = p
     ds = list(first)
-    if len(ds) <= 90:
-        for x in range(len(ds)):
-            for y in range(x + 1, len(ds)):
-                A, B = ds[x], ds[y]
-                c = cmp_chain(cmps, A, B)
-                if c is None or c == 0:
-                    continue
-                if c < 0 and last[A] > first[B]:
-                    return (first[B], last[A])
-                if c > 0 and last[B] > first[A]:
-                    return (first[A], last[B])
-        return None
-    for p in range(len(keys) - 1):
-        if keys[p] == keys[p + 1]:
-            continue
-        c = cmp_chain(cmps, keys[p], keys[p + 1])
-        if c is not None and c > 0:
-            return (p, p + 1)
+    memo = [{} for _ in cmps]
+
+    def chain(A, B):
+        for x, c in enumerate(cmps):
+            a, b = A[x], B[x]
+            if a == b:
+                continue
+            m = memo[x]
+            r = m.get((a, b), m)
+            if r is m:
+                r = c(a, b)
+                m[(a, b)] = r
+            if r is None:
+                return None
+            if r:
+                return r
+        return 0
+    for x in range(len(ds)):
+        A = ds[x]
+        fa, la = first[A], last[A]
+        for y in range(x + 1, len(ds)):
+            B = ds[y]
+            c = chain(A, B)
+            if not c:
+                continue
+            if c < 0 and la > first[B]:
+                return (first[B], la)
+            if c > 0 and last[B] > fa:
+                return (fa, last[B])
     return None
